@@ -260,7 +260,7 @@ def supercelltar(tar, superdict, filemode=0o664, directmode=0o775, timestamp=Non
         addsymlink(dirname + '/POTCAR', '../POTCAR')
 
     # and the transition mappings:
-    Makefile = MAKEFILE
+    Makefile = MAKEFILE.replace('neb.', transitionname)  # the template is written for the default name
     relaxNEB = {}
     for tag in sorted(transmapping.keys()):
         dirname = dirmapping[tag]
